@@ -186,6 +186,31 @@ impl<T: Smp> AnyRes<T> {
         }
     }
     /// Move into the object-safe wrapper.
+    /// the instance seen through the object-safe wrapper trait, without giving up the concrete type
+    /// (reset / set_chunk_size stay reachable)
+    pub fn as_dyn(&mut self) -> &mut dyn rubato::VecResampler<T> {
+        match self {
+            AnyRes::SincIn(r) => r,
+            AnyRes::SincOut(r) => r,
+            AnyRes::FastIn(r) => r,
+            AnyRes::FastOut(r) => r,
+            AnyRes::FftIn(r) => r,
+            AnyRes::FftOut(r) => r,
+            AnyRes::FftInOut(r) => r,
+        }
+    }
+    pub fn as_dyn_ref(&self) -> &dyn rubato::VecResampler<T> {
+        match self {
+            AnyRes::SincIn(r) => r,
+            AnyRes::SincOut(r) => r,
+            AnyRes::FastIn(r) => r,
+            AnyRes::FastOut(r) => r,
+            AnyRes::FftIn(r) => r,
+            AnyRes::FftOut(r) => r,
+            AnyRes::FftInOut(r) => r,
+        }
+    }
+
     pub fn boxed(self) -> Box<dyn rubato::VecResampler<T>> {
         match self {
             AnyRes::SincIn(r) => Box::new(r),
